@@ -10,6 +10,7 @@ import (
 	"encoding/json"
 	"fmt"
 	"math"
+	"math/big"
 	"math/rand"
 	"strconv"
 	"strings"
@@ -167,10 +168,17 @@ func (p *jprinter) dblLit(bits uint64) {
 	}
 	mode := 0
 	if p.r != nil {
-		mode = p.r.Intn(4)
+		mode = p.r.Intn(7)
 	}
 	var s string
 	switch mode {
+	case 4, 5, 6:
+		// long spellings of the same double (the lexical oracle is strconv.ParseFloat): its exact decimal expansion,
+		// a 120-digit literal next to the midpoint towards a neighbour (still on f's side), the exact midpoint
+		s = longDblLit(p.r, f, mode)
+		if g, err := strconv.ParseFloat(s, 64); err != nil || math.Float64bits(g) != bits {
+			s = strconv.FormatFloat(f, 'g', -1, 64)
+		}
 	case 1:
 		s = strconv.FormatFloat(f, 'e', -1, 64)
 	case 2:
@@ -185,6 +193,49 @@ func (p *jprinter) dblLit(bits uint64) {
 		s = strconv.FormatFloat(f, 'g', -1, 64)
 	}
 	p.sb.WriteString(s)
+}
+
+func trimDec(s string) string {
+	// s is d.ddddde[+-]xx: drop trailing zeros of the mantissa
+	i := strings.IndexByte(s, 'e')
+	m, e := s[:i], s[i:]
+	m = strings.TrimRight(m, "0")
+	m = strings.TrimSuffix(m, ".")
+	return m + e
+}
+
+func longDblLit(r *rand.Rand, f float64, mode int) string {
+	if f == 0 || math.IsInf(f, 0) || math.IsNaN(f) {
+		return "x"
+	}
+	const prec = 4400
+	a := new(big.Float).SetPrec(prec).SetFloat64(f)
+	if mode == 4 {
+		return trimDec(a.Text('e', 1100))
+	}
+	dir := math.Inf(1)
+	if r.Intn(2) == 0 {
+		dir = math.Inf(-1)
+	}
+	nb := math.Nextafter(f, dir)
+	if math.IsInf(nb, 0) || nb == 0 {
+		return "x"
+	}
+	mid := new(big.Float).SetPrec(prec).SetFloat64(nb)
+	mid.Add(mid, a)
+	mid.Quo(mid, big.NewFloat(2))
+	if mode == 6 {
+		if s := trimDec(mid.Text('e', 1100)); len(s) <= 780 {
+			return s
+		}
+		return "x"
+	}
+	// towards f by a 10^-100th of the gap
+	d := new(big.Float).SetPrec(prec).Sub(a, mid)
+	sc, _ := new(big.Float).SetPrec(prec).SetString("1e-100")
+	d.Mul(d, sc)
+	mid.Add(mid, d)
+	return trimDec(mid.Text('e', 119+r.Intn(200)))
 }
 
 func (p *jprinter) val(x *JX) {
@@ -270,6 +321,44 @@ func (c *c02) popts(o J2TOpts) thrift.Options {
 	return thrift.Options{SetOptionalBitmap: o.Optbm, UseDefaultValue: o.Usedflt}
 }
 
+// StepRec: what the resume protocol between the native state machine and Go looks like from outside
+type StepRec struct {
+	Code  int  `json:"code"`
+	Arg   int  `json:"arg"`
+	Start int  `json:"start"`
+	Len   int  `json:"len"`
+	Cap   int  `json:"cap"`
+	Pfx   bool `json:"pfx"` // the caller's bytes before start are still what they were at the first step
+	SP    int  `json:"sp"`
+	Pos   int  `json:"pos"`
+	RL    int  `json:"rl"`
+	RC    int  `json:"rc"`
+	KL    int  `json:"kl"`
+	KC    int  `json:"kc"`
+	FL    int  `json:"fl"`
+	FC    int  `json:"fc"`
+}
+
+var j2tSteps []StepRec
+var j2tPrefix []byte
+
+// installed by c02Main only: the recorder is not safe for concurrent conversions (C12 runs those)
+func installJ2TStepRecorder() {
+	j2t.VerifStep = func(code, arg, start int, buf []byte, sp, pos, rl, rc, kl, kc, fl, fc int) {
+		if len(j2tSteps) >= 4096 {
+			return
+		}
+		pfx := start <= len(buf)
+		if pfx {
+			if j2tPrefix == nil {
+				j2tPrefix = append([]byte{}, buf[:start]...)
+			}
+			pfx = string(buf[:start]) == string(j2tPrefix)
+		}
+		j2tSteps = append(j2tSteps, StepRec{code, arg, start, len(buf), cap(buf), pfx, sp, pos, rl, rc, kl, kc, fl, fc})
+	}
+}
+
 func (c *c02) run(jc J2TCase) {
 	c.cases++
 	var text []byte
@@ -296,6 +385,8 @@ func (c *c02) run(jc J2TCase) {
 		Cls string `json:"cls"`
 		Out B      `json:"out"`
 		Msg string `json:"msg,omitempty"`
+		// one record per return of the native state machine to Go during this call (hook j2t.VerifStep)
+		Steps []StepRec `json:"steps"`
 	}
 	var rs []res
 	one := func(api string, cp int) {
@@ -309,6 +400,8 @@ func (c *c02) run(jc J2TCase) {
 			in := append([]byte(nil), text...)
 			var out []byte
 			var err error
+			j2tSteps, j2tPrefix = j2tSteps[:0], nil
+			defer func() { r.Steps = append([]StepRec{}, j2tSteps...) }()
 			if api == "Do" {
 				out, err = cv.Do(context.Background(), c.root, in)
 			} else if api == "DoInto+prefix" {
@@ -504,6 +597,7 @@ func (c *c02) genRandom(seed int64, base, n int) {
 }
 
 func c02Main(args map[string]string) {
+	installJ2TStepRecorder()
 	out := newOut(args["out"])
 	defer out.Close()
 	c := &c02{prop: args["prop"]}
